@@ -256,7 +256,13 @@ func checkSignVerify(r *Rng) {
 	key.PublicKey = toB64(priv.Public().(ed25519.PublicKey))
 	// every combination of: owner already lower case or not, TTLs equal to the original TTL or
 	// not, wildcard owner or not, record type with / without embedded names
-	for _, owner := range []string{"example.org.", "Example.ORG.", "*.example.org.", "*.Example.org."} {
+	expandWildcard := false
+	for _, owner := range []string{"example.org.", "Example.ORG.", "*.example.org.", "*.Example.org.", "EXPAND:a.b.example.org.", "EXPAND:X.Example.org."} {
+		expandWildcard = strings.HasPrefix(owner, "EXPAND:")
+		expanded := strings.TrimPrefix(owner, "EXPAND:")
+		if expandWildcard {
+			owner = "*.example.org." // signed as a wildcard, verified below under the expanded owner
+		}
 		for _, ttls := range [][2]uint32{{300, 300}, {300, 200}} {
 			for _, mk := range []func(h dns.RR_Header, i int) dns.RR{
 				func(h dns.RR_Header, i int) dns.RR {
@@ -308,8 +314,19 @@ func checkSignVerify(r *Rng) {
 						c.Header().Rdlength = 0
 						return text(c)
 					}
+					if expandWildcard {
+						// the answer synthesised from the wildcard: same records under the expanded owner
+						for _, rr := range rrset {
+							rr.Header().Name = expanded
+						}
+						sig.Hdr.Name = expanded // the RRSIG travels under the expanded owner as well
+						before = snap()
+					}
 					sigBefore := sigSnap()
-					_ = sig.Verify(key, rrset)
+					verr := sig.Verify(key, rrset)
+					if expandWildcard && verr != nil {
+						st["wildcard_expansion_not_verified"]++
+					}
 					if snap() != before || sigSnap() != sigBefore {
 						Viol("C16/readonly-mutates/Verify", "RRSIG.Verify changed the RRset, the key or the signature record", map[string]string{"before": before + sigBefore, "after": snap() + sigSnap()})
 					}
@@ -445,6 +462,7 @@ func run(r *Rng, tier string, n int) {
 	}
 	checkSignVerify(r)
 	readonlyNonCanonical(r)
+	unpackAliasingSweep(r)
 	Stat(st)
 }
 
@@ -592,6 +610,75 @@ func readonlyNonCanonical(r *Rng) {
 					map[string]string{"before": fmt.Sprintf("%v", before), "after": fmt.Sprintf("%v", rr)})
 				break
 			}
+		}
+	}
+}
+
+// unpackAliasingSweep: a decoded message shares no memory with the input buffer, for every EDNS0 option
+// code and SVCB key with every value length 0..24 (so also the lengths at which a decoder could hand out
+// a window of the buffer instead of a copy, e.g. a client-subnet option carrying all 16 address octets)
+func unpackAliasingSweep(r *Rng) {
+	check := func(w []byte, what string) {
+		buf := append(make([]byte, 0, len(w)+64), w...) // spare capacity, like a pooled receive buffer
+		var u dns.Msg
+		if u.Unpack(buf) != nil {
+			return
+		}
+		st["unpack_alias_sweep_checked"]++
+		var mu []span
+		memory(reflect.ValueOf(&u), "Msg", &mu)
+		base := uintptr(unsafe.Pointer(unsafe.SliceData(buf)))
+		if wv, ok := overlaps(mu, []span{{base, base + uintptr(cap(buf)), "buf"}}); ok {
+			Viol("C16/unpack-aliases-buffer", "an unpacked message shares memory with the input buffer ("+what+"): "+wv, map[string]string{"wire": Hx(w)})
+			return
+		}
+		s1 := msgSnap(&u)
+		full := buf[:cap(buf)]
+		for i := range full {
+			full[i] ^= 0xff
+		}
+		if msgSnap(&u) != s1 {
+			Viol("C16/unpack-aliases-buffer", "overwriting the input buffer changed the unpacked message ("+what+")", map[string]string{"wire": Hx(w)})
+		}
+	}
+	hdr := func(an, ar int) []byte { return []byte{0, 1, 0x80, 0, 0, 0, 0, byte(an), 0, 0, 0, byte(ar)} }
+	for code := 0; code <= 20; code++ {
+		for l := 0; l <= 24; l++ {
+			data := r.Bytes(l)
+			if code == 8 && l >= 4 { // client subnet: a valid family / prefix for the address length present
+				fam, bits := byte(1), 32
+				if l-4 > 4 {
+					fam, bits = 2, 128
+				}
+				plen := (l - 4) * 8
+				if plen > bits {
+					plen = bits
+				}
+				data[0], data[1], data[2], data[3] = 0, fam, byte(plen), 0
+			}
+			rd := append([]byte{byte(code >> 8), byte(code), 0, byte(l)}, data...)
+			w := hdr(0, 1)
+			w = append(w, 0, 0, 41, 0x10, 0, 0, 0, 0, 0, byte(len(rd)>>8), byte(len(rd)))
+			w = append(w, rd...)
+			check(w, "EDNS0 option "+Itoa(code)+" length "+Itoa(l))
+		}
+	}
+	for _, key := range []int{0, 1, 2, 3, 4, 5, 6, 7, 8, 65400} {
+		for l := 0; l <= 34; l++ {
+			data := r.Bytes(l)
+			if key == 1 && l > 0 { // alpn: one id filling the value
+				data[0] = byte(l - 1)
+			}
+			if key == 0 { // mandatory: ascending keys
+				for i := 0; i+1 < l; i += 2 {
+					data[i], data[i+1] = 0, byte(1+i/2)
+				}
+			}
+			rd := append([]byte{0, 1, 0, byte(key >> 8), byte(key), 0, byte(l)}, data...)
+			w := hdr(1, 0)
+			w = append(w, 1, 's', 0, 0, 64, 0, 1, 0, 0, 0, 0, byte(len(rd)>>8), byte(len(rd)))
+			w = append(w, rd...)
+			check(w, "SVCB key "+Itoa(key)+" length "+Itoa(l))
 		}
 	}
 }
